@@ -125,6 +125,7 @@ type Obligation struct {
 	Extra   []string // extra SMT commands (e.g. lemma-local declarations)
 	Derived bool
 	NoQuant bool // model search: drop quantified hypotheses
+	Focus   bool // second attempt: focused hypothesis selection
 }
 
 type InputSym struct {
@@ -139,6 +140,9 @@ type Decls struct {
 	lines   []string
 	seen    map[string]bool
 	counter map[string]int
+	defines  map[string]string // axiom line -> define-fun (quantifier-free mode)
+	declSkip map[string]bool
+	opaqueAxiom map[string]string // axiom line -> opaque spec function name
 }
 
 func newDecls() *Decls { return &Decls{seen: map[string]bool{}, counter: map[string]int{}} }
